@@ -251,7 +251,8 @@ class PurityScenario(Scenario):
             'element, in-place edits of derived objects, attribute-update paths, invalid calls) and calls generated from a type-aware '
             'catalogue of the whole public surface (optional arguments, dtypes, layouts, containers varied) over a '
             'shared pool of caller-owned arrays/planes/spectra, interleaved by the seeded scheduler with cache-size changes and '
-            'clears, global-RNG draws and reseeds, duplicate calls and (1 run in 4) read-only caller arrays; distinct = distinct '
+            'clears, global-RNG draws and reseeds, duplicate calls and (1 run in 4) read-only caller arrays; further workload ingredients '
+            'added by the seeded rounds are listed in MANIFEST.json and DESIGN.md section 15; distinct = distinct '
             'history digest; non-trivial = at least one fault fired and at least one oracle comparison was made')
     state_measure = 'distinct public-API entry points x outcome class reached (fn>ok / fn>ExceptionName)'
     assumptions = ['shared objects are used only through calls not documented as in-place; documented in-place calls '
